@@ -16,19 +16,19 @@ Definition Fresh (s : state) : Prop :=
   end.
 Definition Good (s : state) : Prop := Inv s /\ Fresh s.
 
-Lemma Fresh_step : forall s e s', Fresh s -> honest e = true -> step s e = Some s' ->
+Lemma Fresh_step : forall s e s', Inv s -> Fresh s -> honest e = true -> step s e = Some s' ->
   Fresh s' /\ src s' = src s.
 Proof.
-  intros s e s' HF Hh H. unfold step in H.
+  intros s e s' HI HF Hh H. unfold step in H.
   destruct e; try discriminate Hh; break_step H;
-    destruct HF as [Hi [Hp [Hl Hr]]]; unfold Fresh; simpl;
+    destruct HI as [[_ [Hsh [Hok _]]] _]; destruct HF as [Hi [Hp [Hl Hr]]]; unfold Fresh; simpl;
     try (unfold stop_revert; simpl); (split; [|reflexivity]); repeat apply conj; try assumption;
     try exact I; try (intros; discriminate); try (intros ? F; contradiction).
   - intros x [<-|Hx]; auto. apply at_num_some in E; tauto.
   - intros h' g Hg. injection Hg as <- _. apply tip_In; auto.
   - eapply Hl; eauto.
   - split_andb. intros x [<-|Hx]; auto. apply Hi, memb_In; auto.
-  - split_andb. apply Hp, memb_In; auto.
+  - split_andb. apply memb_In in H1. apply Hp in H1. rewrite gen_genuine; auto; apply Hok; auto.
   - rewrite E in Hr. tauto.
   - rewrite E in Hr. intros rb Hrb. injection Hrb as <-. apply at_num_some in E3; tauto.
   - rewrite E in Hr. tauto.
@@ -164,20 +164,20 @@ Lemma measure_step : forall s e s', Good s -> honest e = true -> step s e = Some
   end.
 Proof.
   intros s e s' [HI HF] Hh H.
-  destruct (Fresh_step s e s' HF Hh H) as [HF' Hsrc].
+  destruct (Fresh_step s e s' HI HF Hh H) as [HF' Hsrc].
   split; [split; [eapply Inv_step; eauto|auto]|].
   assert (Hsame : loc s' = loc s -> dist s' = dist s).
   { intro El. unfold dist, bad, todo. rewrite El, Hsrc. reflexivity. }
   destruct (head_back_lemma s e s' H) as [El|[[b [-> El]]|[-> [b El]]]].
   - destruct e; auto.
     + (* StoreOk with unchanged chain is impossible *)
-      simpl in H. destruct (negb (canc s) && is_idle (rv s) && obox_empty s && memb b (pend s) && extendsb (loc s) b);
+      simpl in H. destruct (negb (canc s) && is_idle (rv s) && obox_empty s && memb b (pend s) && extendsb (loc s) b && stb b);
         [|discriminate]. injection H as <-. simpl in El.
       exfalso. assert (length (b :: loc s) = length (loc s)) by (rewrite El; auto). simpl in H; lia.
     + exfalso. destruct (reverted_not_in_src s s' (conj HI HF) H) as [b [Eb _]].
       assert (length (loc s) = length (b :: loc s')) by (rewrite <- Eb; auto). rewrite El in H0. simpl in H0; lia.
   - (* StoreOk b *)
-    simpl in H. destruct (negb (canc s) && is_idle (rv s) && obox_empty s && memb b (pend s) && extendsb (loc s) b) eqn:E;
+    simpl in H. destruct (negb (canc s) && is_idle (rv s) && obox_empty s && memb b (pend s) && extendsb (loc s) b && stb b) eqn:E;
       [|discriminate]. split_andb.
     destruct HI as [_ [[_ [Hl _]] _]]. destruct HF as [_ [Hp _]].
     assert (Hin : In b (src s)) by (apply Hp, memb_In; auto).
